@@ -266,9 +266,10 @@ def notAValidation (h : Hist) (e : StoreEv) : Option String :=
     | none => none
     | some rp =>
       if rp.resp.status ≠ 304 then none else
-      -- the entry as it was read in this stream before the write
+      -- the entry as it was read in this stream before the write (a 304 that changes Vary makes the cache store the
+      -- merged response under ANOTHER identifier: whatever is written after a 304 is the entry that was read, merged)
       match ((h.stores e.n e.stream).filter (·.idx < e.idx)).reverse.findSome? (fun s => match s.op, s.result, s.val with
-          | "get", "ok", .ent en true => if en.id = e.key then some en else none
+          | "get", "ok", .ent en true => some en
           | _, _, _ => none) with
       | none => none
       | some old =>
